@@ -269,6 +269,58 @@ def finish(ctx, case, kind, extra, drawn):
 
 
 # ------------------------------------------------------------------------ kinds
+def scalar_large(ctx):
+    """A plane of more than 2**20 cells: matplotlib is still handed exactly the field's
+    numbers (all 15-17 significant digits of them), at the cell centres."""
+    rng = ctx.rng
+    n = (int(rng.choice([1031, 1033, 1039])), int(rng.choice([1021, 1019, 1024])))
+    cell = 10.0 ** rng.uniform(-9, -3) * rng.uniform(0.5, 2, 2)
+    pmin = rng.uniform(-1, 1, 2) * cell * n
+    mesh = df.Mesh(p1=pmin.tolist(), p2=(pmin + cell * n).tolist(), n=n)
+    vals = rng.normal(size=n) * 10.0 ** rng.uniform(-3, 9) + 10.0 ** rng.uniform(3, 7)
+    valid = rng.random(n) < 0.97
+    f = df.Field(mesh, nvdim=1, value=vals[..., None], valid=valid)
+    info = {"plot": "scalar", "part": "large", "n": n, "cells": int(np.prod(n))}
+    ctx.sig(("scalar", "large"), nontrivial=True)
+    ctx.event("large_meshes")
+    fig, ax = plt.subplots()
+    CALLS.clear()
+    okc, _ = ctx.expect_ok("C20.accepted", lambda: f.mpl.scalar(ax=ax, colorbar=False), what=info)
+    if not okc:
+        return
+    cs = calls_on(ax, "imshow")
+    ctx.check("C20.scalar.one_image", len(cs) == 1, calls=len(cs), **info)
+    if cs:
+        _, _, args, ckw = cs[0]
+        img = np.asarray(args[0] if args else ckw.get("X"))
+        got = np.asarray(img, dtype=float).T
+        same = got.shape == vals.shape and bool(np.array_equal(got[valid], vals[valid]))
+        w = {}
+        if got.shape == vals.shape and not same:
+            bad = np.argwhere(valid & (got != vals))
+            w = {"wrong_cells": int(len(bad)), "got": got[tuple(bad[0])], "field_value": vals[tuple(bad[0])],
+                 "image_dtype": str(img.dtype)}
+        ctx.check("C20.scalar.image", same, got_shape=got.shape, **w, **info)
+        ctx.check("C20.scalar.image", got.shape == vals.shape and bool(np.all(np.isnan(got[~valid]))),
+                  note="invalid cells of a large plane are hidden", **info)
+
+
+def used_axes(rng):
+    """New axes - or, in a third of the cases, axes that already carry an earlier plot of
+    another field (other dimension names, units, length scale, multiplier): what a plot
+    call shows is decided by the field it is called on, not by what the axes showed before."""
+    fig, ax = plt.subplots()
+    if rng.random() < 0.33:
+        try:
+            other = Case(rng)
+            g = df.Field(other.mesh, nvdim=1, value=rng.normal(size=(*other.n, 1)))
+            kw = {} if other.multiplier is None else {"multiplier": other.multiplier}
+            g.mpl.scalar(ax=ax, colorbar=False, **kw)
+        except Exception:  # noqa: BLE001 - the earlier plot is not under test
+            pass
+    return fig, ax
+
+
 def scalar(ctx):
     rng = ctx.rng
     case = Case(rng)
@@ -285,7 +337,7 @@ def scalar(ctx):
     fkind, ff, fhid = case.filter(rng)
     info = {"plot": "scalar", "filter": fkind, "dtype": dt, **case.describe()}
     guard = Unchanged(ctx, f, [ff] if ff is not None else [], info)
-    fig, ax = plt.subplots()
+    fig, ax = used_axes(rng)
     CALLS.clear()
     kw = {}
     if ff is not None:
@@ -389,7 +441,7 @@ def vector(ctx):
         kw["colorbar"] = False
     info["mode"] = mode
     guard = Unchanged(ctx, f, aux, info)
-    fig, ax = plt.subplots()
+    fig, ax = used_axes(rng)
     CALLS.clear()
     f.mpl.vector(ax=ax, **kw)
     guard.verify()
@@ -446,7 +498,7 @@ def contour(ctx):
     fkind, ff, fhid = case.filter(rng)
     info = {"plot": "contour", "filter": fkind, **case.describe()}
     guard = Unchanged(ctx, f, [ff] if ff is not None else [], info)
-    fig, ax = plt.subplots()
+    fig, ax = used_axes(rng)
     CALLS.clear()
     kw = {}
     if ff is not None:
@@ -722,7 +774,10 @@ KINDS = (scalar, vector, contour, lightness, combined, refusals, vector)
 
 def run_case(ctx, i):
     try:
-        KINDS[i % 7](ctx)
+        if i % 560 == 283:
+            scalar_large(ctx)
+        else:
+            KINDS[i % 7](ctx)
     finally:
         plt.close("all")
         CALLS.clear()
